@@ -378,8 +378,18 @@ class PrimalDualHybridGradient(Alg):
 
     def _update(self):
         # Update dual.
+        with self.u_device:
+            u_old = self.u.copy()
+        with self.x_device:
+            x_ext_diff = self.x_ext - self.x
+
         util.axpy(self.u, self.sigma, self.A(self.x_ext))
         backend.copyto(self.u, self.proxfc(self.sigma, self.u))
+        with self.u_device:
+            xp = self.u_device.xp
+            resid_dual = xp.linalg.norm(
+                (self.u - u_old) / self.sigma**0.5
+            ).item()
 
         # Update primal.
         with self.x_device:
@@ -413,7 +423,11 @@ class PrimalDualHybridGradient(Alg):
         with self.x_device:
             xp = self.x_device.xp
             x_diff = self.x - x_old
-            self.resid = xp.linalg.norm(x_diff / self.tau**0.5).item()
+            self.resid = (
+                xp.linalg.norm(x_diff / self.tau**0.5).item() ** 2
+                + xp.linalg.norm(x_ext_diff / self.tau**0.5).item() ** 2
+                + resid_dual**2
+            ) ** 0.5
             backend.copyto(self.x_ext, self.x + theta * x_diff)
 
     def _done(self):
